@@ -32,6 +32,7 @@ import (
 	"time"
 
 	sdk "github.com/cosmos/cosmos-sdk/types"
+	gogotypes "github.com/cosmos/gogoproto/types"
 
 	"verif/harness/chain"
 	"verif/harness/internal/common"
@@ -150,6 +151,8 @@ type pcase struct {
 }
 
 func rep(s string, n int) string { return strings.Repeat(s, n) }
+
+func durationPB(seconds int64) *gogotypes.Duration { return &gogotypes.Duration{Seconds: seconds} }
 
 func patchCases() []pcase {
 	batch1 := "C01-001-20200101-20210101-001"
